@@ -14,7 +14,7 @@ import time
 import traceback
 
 from . import report
-from .model import AnalysisError, Program
+from .model import AnalysisError, Program, ShapeError
 
 PROPS = ["C%02d" % i for i in range(1, 21)]
 
@@ -28,6 +28,12 @@ def run_rules(prop_id, prog, tier, quiet=True):
     ctx = report.Ctx(prop_id, prog, tier, quiet=quiet)
     try:
         mod.run(ctx)
+    except ShapeError as e:
+        # the anchored function is there but the mechanism inside it is not: a violation, not an analysis problem
+        r = ctx.rule("SHAPE", "the mechanism each rule is anchored on is present in its anchored function", 0, "A")
+        r.fail("mechanism-missing: %s" % e, "expected mechanism not found: %s" % e, "",
+               "the construct that makes the property hold was removed or rewritten beyond recognition")
+        ctx.aborted = str(e)
     except AnalysisError as e:
         # a rule already reported a failing instance and a later rule then lost
         # its anchor (typical for a broken tree): the failure stands.
